@@ -151,6 +151,10 @@ class Agent:
       tx_gap_min   minimum number of tx_valid-low cycles between packets (>= 1)
       start_quiet  number of initial cycles in which the PHY and the transmitter stay silent
       abort_tx     whether the PHY may raise DIR in the middle of a link transmission
+      blip_rate    per-mille probability per quiet cycle (everything idle) of a control-input "blip": one control input
+                   changes, goes back to its previous value 1..6 cycles later (typically while the register write it
+                   caused is still on the bus), and the UTMI transmitter starts a packet 0..8 cycles after that whatever
+                   the translator's busy output says (0 = never; no random draw is made then)
       pend_abort   per-cent probability, per presentation of a transmit command (0x4x on the bus, not yet
                    accepted), that the PHY starts a receive instead of accepting it, in one of the cycles in
                    which it would still have been waiting or in the very cycle it would have accepted - mostly
@@ -163,7 +167,7 @@ class Agent:
         self.rng = rng
         self.p = dict(rx_rate=15, abort_rate=0, nxt_delay=3, throttle=30, tx_rate=30, max_len=12,
                       ctrl_mode="const", ctrl_rate=10, illegal_rx=False, spurious_nxt=0, tx_gap_min=1,
-                      start_quiet=0, rx_max_items=14, tx_wait_idle=False, abort_tx=True, pend_abort=0)
+                      start_quiet=0, rx_max_items=14, tx_wait_idle=False, abort_tx=True, pend_abort=0, blip_rate=0)
         self.p.update(params or {})
         self.ctrl = dict(ctrl0 or DEFAULT_CTRL)
         # PHY state
@@ -181,6 +185,8 @@ class Agent:
         # control process
         self.since_change = 0
         self.idle_run = 0
+        self.blip = None           # control blip in progress: dict(n, old, revert_in, tx_in)
+        self.force_tx = False
         self.prev_out = None
         self.tags = set()
 
@@ -315,7 +321,32 @@ class Agent:
         mode = p["ctrl_mode"]
         self.since_change += 1
         self.idle_run = self.idle_run + 1 if (po is not None and po[O["busy"]] == 0) else 0
-        if mode != "const" and not quiet:
+        if self.blip is not None:
+            b = self.blip
+            if b["revert_in"] is not None:
+                b["revert_in"] -= 1
+                if b["revert_in"] <= 0:
+                    self.ctrl[b["n"]] = b["old"]
+                    self.since_change = 0
+                    b["revert_in"] = None
+            elif b["tx_in"] > 0:
+                b["tx_in"] -= 1
+            if b["revert_in"] is None and b["tx_in"] <= 0:
+                self.force_tx = True
+                self.blip = None
+        elif p["blip_rate"] and not quiet and po is not None and po[O["busy"]] == 0 and self.tx_bytes is None \
+                and self.phy == "idle" and bus == 0 and self.idle_run >= 4 and self.since_change > 4 \
+                and rng.below(1000) < p["blip_rate"]:
+            n = rng.choice(CTRL)
+            w = 1 << CTRL_WIDTH.get(n, 1)
+            old = self.ctrl[n]
+            self.ctrl[n] = (old + 1 + rng.below(w - 1)) % w
+            self.blip = {"n": n, "old": old, "revert_in": rng.range(1, 6), "tx_in": rng.range(0, 8)}
+            self.since_change = 0
+            self.tags.add("ctrl-blip")
+        if self.blip is not None or self.force_tx:
+            pass
+        elif mode != "const" and not quiet:
             if mode == "wild":
                 if rng.below(1000) < p["ctrl_rate"]:
                     self.change_ctrl()
@@ -327,10 +358,16 @@ class Agent:
         # ---------------- UTMI transmitter
         tx_valid, tx_data = 0, 0
         hold_off = p["tx_wait_idle"] and (self.idle_run < 3 or self.since_change < 4)
-        if self.tx_bytes is None and not quiet and not hold_off:
-            if self.tx_gap > 0:
+        if self.blip is not None:
+            hold_off = True              # the packet that follows the blip starts when the blip says so
+        force = self.force_tx and self.tx_bytes is None
+        self.force_tx = False
+        if force:
+            self.tags.add("tx-after-ctrl-blip" + ("-while-busy" if (po is not None and po[O["busy"]]) else ""))
+        if self.tx_bytes is None and not quiet and (force or not hold_off):
+            if self.tx_gap > 0 and not force:
                 self.tx_gap -= 1
-            elif rng.below(1000) < p["tx_rate"]:
+            elif force or rng.below(1000) < p["tx_rate"]:
                 n = rng.weighted([(3, 1), (3, 2), (2, 3), (6, rng.range(1, p["max_len"]))])
                 self.tx_bytes = rng.bytes(n)
                 self.tx_pos = 0
